@@ -165,10 +165,10 @@ def random_cfg(rng, shape, root, presigned):
 
 
 def work_recursive(args):
-    seed, index, mode = args
+    seed, index, mode, *rest = args
     rng = random.Random(f"{seed}:{index}:c09rec")
     drv = common.worker_driver()
-    desc, files, shape = build_tree(rng, seed, index, rng.choice([1, 2, 3]), [0])
+    desc, files, shape = build_tree(rng, seed, index, rest[0] if rest else rng.choice([1, 2, 3]), [0])
     c = suitcases.run_impl_create(desc, files)
     if "ok" not in c:
         return None
@@ -285,7 +285,49 @@ def work_recursive(args):
                     c["dependencies"] = {n: party(x) for n, x in c["dependencies"].items()}
                 return c
             cfg = party(cfg)
-        res, recs = signing.run_sign("recursive", b, d, configuration=cfg)
+        env_saved = None
+        if mode == "environment":
+            # the build environment offers fall-back scripts (NCS_SUIT_KMS_SCRIPT / NCS_SUIT_SIGN_SCRIPT / ZEPHYR_BASE); a configuration whose root names
+            # its own scripts hands them down to its dependencies - the environment is only the last resort.  The fall-back KMS lies in a directory
+            # holding *other* keys under the same names, so a node signed through it does not verify.
+            compare_model = False
+            import shutil
+            from cryptography.hazmat.primitives import serialization
+            from cryptography.hazmat.primitives.asymmetric import ec, ed25519, ed448
+            cfg.pop("context", None)
+            own = os.path.join(d, "vendor_kms")
+            zb = os.path.join(d, "zephyrproject", "zephyr")
+            stock = os.path.join(d, "zephyrproject", "modules", "lib", "suit-generator", "ncs")
+            for pd in (own, zb, stock):
+                os.makedirs(pd)
+            for pd in (own, stock):
+                shutil.copy(str(common.REPO / "ncs" / "basic_kms.py"), os.path.join(pd, "basic_kms.py"))
+            shutil.copy(str(common.REPO / "ncs" / "sign_script.py"), os.path.join(stock, "sign_script.py"))
+            gens = {"p256": lambda: ec.generate_private_key(ec.SECP256R1()), "p384": lambda: ec.generate_private_key(ec.SECP384R1()),
+                    "p521": lambda: ec.generate_private_key(ec.SECP521R1()), "ed25519": ed25519.Ed25519PrivateKey.generate, "ed448": ed448.Ed448PrivateKey.generate}
+            for f in os.listdir(signing.keys_dir()):
+                if f.endswith(".pem"):
+                    shutil.copy(os.path.join(signing.keys_dir(), f), os.path.join(own, f))
+                    kt = f[len("key_"):].split(".")[0].split("_")[0]
+                    with open(os.path.join(stock, f), "wb") as fh:
+                        fh.write(gens[kt]().private_bytes(serialization.Encoding.PEM, serialization.PrivateFormat.PKCS8, serialization.NoEncryption()))
+            cfg["kms-script"] = os.path.join(own, "basic_kms.py")
+            env_saved = {k: os.environ.get(k) for k in ("NCS_SUIT_KMS_SCRIPT", "NCS_SUIT_SIGN_SCRIPT", "ZEPHYR_BASE")}
+            which = index % 3
+            if which in (0, 2):
+                os.environ["ZEPHYR_BASE"] = zb
+            if which in (1, 2):
+                os.environ["NCS_SUIT_KMS_SCRIPT"] = os.path.join(stock, "basic_kms.py")
+                os.environ["NCS_SUIT_SIGN_SCRIPT"] = os.path.join(stock, "sign_script.py")
+        try:
+            res, recs = signing.run_sign("recursive", b, d, configuration=cfg)
+        finally:
+            if env_saved is not None:
+                for k, v in env_saved.items():
+                    if v is None:
+                        os.environ.pop(k, None)
+                    else:
+                        os.environ[k] = v
     model = drv.call({"op": "sign.recursive", "file": b.hex(), "cfg": cfg_to_model(cfg), "table": recs}) if compare_model else None
     impl = {"ok": res["ok"].hex()} if "ok" in res else {"err": res["err"]}
     out = {"hash": hashlib.sha1(b + json.dumps(cfg, sort_keys=True).encode()).hexdigest(), "mode": mode, "problems": [], "mismatch": None,
@@ -376,7 +418,7 @@ def run(tier: str, seed: int) -> int:
                         i += 1
     nrec = 110 if tier == "quick" else 3000
     for k in range(nrec):
-        mode = ["valid", "valid", "resign", "valid", "absent", "not-envelope", "mismatch", "parties", "resign"][k % 9]
+        mode = ["valid", "valid", "resign", "valid", "absent", "not-envelope", "mismatch", "parties", "resign", "environment"][k % 10]
         jobs.append(("rec", (seed, k, mode)))
     outs = common.pmap(_dispatch, jobs, chunk=2)
     for job, o in zip(jobs, outs):
